@@ -6,7 +6,9 @@ void PolarGrid::RadialAnisotropicDivision(std::vector<double>& r_temp, const dou
 {
     // Calculate the percentage of refinement_radius.
     const double percentage = (refinement_radius - R0) / (R - R0);
-    assert(percentage >= 0.0 && percentage <= 1.0);
+    if (!(percentage >= 0.0 && percentage <= 1.0)) {
+        throw std::invalid_argument("The refinement radius of an anisotropic grid must lie in [R0, Rmax].\n");
+    }
 
     // 1) uniform division with nr=2^dummy_lognr - 2^aniso
     // 2) remaining nodes are added by refining the part centered around 2/3 of r
@@ -38,12 +40,19 @@ void PolarGrid::RadialAnisotropicDivision(std::vector<double>& r_temp, const dou
 
     // Added by Allan Kuhn to fix a memory error
     if (floor(nr * percentage) > nr - (n_elems_refined / 2)) {
+        if (nr - floor(nr * percentage) < 1) {
+            throw std::invalid_argument("The anisotropic refinement region does not fit between R0 and Rmax.\n");
+        }
         int new_aniso   = log2(nr - floor(nr * percentage)) + 1;
         n_elems_refined = pow(2, new_aniso);
     }
 
     se     = floor(nr * percentage) - n_elems_refined / 2;
     int ee = se + n_elems_refined;
+    // The refined cells r_temp2[se], ..., r_temp2[ee] must exist.
+    if (se < 0 || ee > n_elems_equi) {
+        throw std::invalid_argument("The anisotropic refinement region does not fit between R0 and Rmax.\n");
+    }
     // takeout
     int st = ceil((double)n_elems_refined / 4.0 + 1) - 1;
     int et = floor(3 * ((double)n_elems_refined / 4.0));
